@@ -2,6 +2,7 @@ import TealerModel.Proto
 import TealerModel.Avm
 import TealerModel.Regex
 import TealerModel.Group
+import TealerModel.Lemmas.Solver
 open Tealer Tealer.Proto
 
 def emit (out : IO.FS.Stream) (s : String) : IO Unit := out.putStrLn s
@@ -75,6 +76,9 @@ def handleProg (out : IO.FS.Stream) (id : String) (pathSpec : String) (toks : Li
         | .error e => emit out s!"err analyse {e}"
         | .ok c =>
           renderContexts out f c
+          match mkGraph f with
+          | .ok g => emit out s!"premises fwdWF={if Solver.fwdWF g then 1 else 0} bwdWF={if Solver.bwdWF g then 1 else 0}"
+          | .error _ => pure ()
           let fuel := (f.blocks.length + 2) * (f.subs.length + 2) + 2
           for d in allDetectors do
             match detect f c d fuel with
